@@ -79,6 +79,9 @@ func GenPFB(t *sim.Tape, maxSegs, maxLen int, allow ...PFBAnomaly) (*PFBStream, 
 		default:
 			l = t.Range(1, 16)
 		}
+		if t.Choose(400) == 0 {
+			l = 65530 + t.Choose(600) // lengths that need the third length byte
+		}
 		s.Declared = l
 		s.Data = make([]byte, l)
 		mode := t.Choose(3)
